@@ -1,6 +1,7 @@
 """Source of truth for MANIFEST.json (tools/gen_manifest.py)."""
 HOOK_COMMITS = []
 ENGINES = [
+    {"name": "E4-server", "path": "vf/props/c20.py", "serves_properties": ["C20"], "kind_free_text": "token-string enumerator + request-sequence BFS against the real FastAPI app"},
     {"name": "E1-v2x", "path": "vf/engines/v2x.py", "serves_properties": ["C04", "C05", "C06", "C07", "C08", "C09", "C10", "C11"],
      "kind_free_text": "explicit-state BFS over the real Colang 2.x interpreter (run_to_completion), all random.choice outcomes enumerated, canonical-state dedup, from-scratch replay validation"},
 ]
@@ -44,5 +45,23 @@ CHECKS["C08"] = {
     "technique": "exhaustive enumeration of signatures x call shapes x argument values x call forms, each program executed on the real parser + interpreter, oracle = Python-like binder",
     "text": "All signatures with <=2 (quick) / <=3 (thorough) parameters and every default mask, every call shape (given subset, positional prefix, named order), values from 8 types incl. None, containers and a caller variable (full product for <=2 arguments), five call forms (assign-await, await, implicit, start+match Finished, activate); the callee echoes its parameters, returns a value, assigns locals that shadow caller/sibling variables.",
     "note": "Trusted: the binder oracle. Calls omitting a parameter without default, surplus arguments and flows ending without `return` are outside the statement.",
+}
+CHECKS["C10"] = {
+    "engine": "E1-v2x + RuntimeV2_x.process_events", "level": "model_checking",
+    "technique": "explicit-state model checking of the implementation with a step budget (termination) + exhaustive fault enumeration: every fault kind x statement position x start form x every event history up to a length, through the real process_events",
+    "text": "Termination: every (activated/started flow body x helper body x starter) program incl. flows that finish or fail immediately, nested activation, loops/recursion through a match; BFS over all histories to depth 3 (quick) / 4 (thorough) with a per-run_to_completion budget of 50 x (compiled elements + 10) internal events. Isolation: 12 fault kinds (bad expression, wrong type, invalid pattern, unresolvable reference; raised while sliding or while matching) at 3 statement positions, victim started in 3 ways, all histories over 4 events up to length 3 (quick) / 4 (thorough) through process_events: nothing escapes, a ColangError is observable exactly when the faulty statement is reached, a bystander flow in its own loop reacts to the same and to later events exactly as a reference model says.",
+    "note": _E1_NOTE + " The bound-depends-only-on-program-size clause is checked as an explicit budget, not proved.",
+}
+CHECKS["C11"] = {
+    "engine": "E1-v2x", "level": "model_checking",
+    "technique": "explicit-state model checking of the implementation with crash-point style cut enumeration: at every reachable state a save/restore cut and an ageing cut, then all continuations in lock-step against the live state",
+    "text": "Every state reachable within the depth bound (all tie-breaks) of the variable-zoo, reference, scope, activation and loop programs plus subsets of the C06/C07 program families is cut by json_to_state(state_to_json(s)) and by a 6 s jump of the virtual clock; every continuation up to the length bound is executed on live and cut copy with the same uid counter and tie-break vector: no exception, identical outgoing events, identical structural dumps.",
+    "note": _E1_NOTE + " Virtual clock replaces datetime.now in statemachine/flows.",
+}
+CHECKS["C20"] = {
+    "engine": "E4-server (fastapi TestClient + direct _get_rails)", "level": "exploration",
+    "technique": "exhaustive enumeration of all config-id strings up to k hostile tokens (HTTP and direct call, single/list forms, both server modes) + breadth-first search over all request sequences over 3 thread ids with a dict-of-lists reference model",
+    "text": "Part A: every distinct string of <=3 (quick) / <=4 (thorough) tokens over 21 hostile tokens as config_id / config_ids, multi- and single-config mode, real RailsConfig.from_path behind a recorder on a scratch tree with prefix-sharing siblings: every loaded path is inside the root, else the fixed reply, never a 500. Part B: BFS (state = datastore contents) over request sequences to depth 4 / 6 against the real endpoint and MemoryStore; messages given to the rails instance and the stored thread equal the reference model.",
+    "note": "Trusted: fake LLMRails (echo), POSIX path semantics; symlinks and non-memory datastores not covered.",
 }
 NOT_APPLICABLE = {}
